@@ -2,8 +2,8 @@ package main
 
 import (
 	"fmt"
-	"time"
 	"github.com/criyle/go-sandbox/container"
+	"time"
 )
 
 func init() {
